@@ -848,6 +848,11 @@ class PSyDataNode(Statement):
             call = gen_type_bound_call(self._var_name, "PreEnd")
             self.parent.children.insert(self.position, call)
 
+        # Any symbols declared in the scope of the body of this region
+        # (e.g. by a transformation applied to a node inside it) must
+        # survive the removal of this node.
+        self.scope.symbol_table.merge(self.psy_data_body.symbol_table)
+
         # Insert the body of the profiled region between the start and
         # end calls
         for child in self.psy_data_body.pop_all_children():
